@@ -52,7 +52,8 @@ THEOREMS = {
               "FlooVerif.C09U.turn_model_acyclic"),
     "C11": _t("C11", "FlooVerif.C11.hw_offers_bindings", "FlooVerif.C11.hw_offers_macros",
               "FlooVerif.C11.pkg_names_and_directions", "FlooVerif.C11.hwOffers_spec"),
-    "C12": _t("C12", "FlooVerif.C12.balanced_sound", "FlooVerif.C12.unbalanced_close", "FlooVerif.C12.lit_fits_iff"),
+    "C12": _t("C12", "FlooVerif.C12.balanced_sound", "FlooVerif.C12.unbalanced_close", "FlooVerif.C12.lit_fits_iff") +
+           _t("C12U", "FlooVerif.C12U.ep_enum_names_distinct", "FlooVerif.C12U.ep_enum_member_unique", "FlooVerif.C12U.sam_idx_names_distinct"),
     "C13": _t("C13", "FlooVerif.C13U.sam_count", "FlooVerif.C13U.cfg_num_sam_rules", "FlooVerif.C13U.router_counts"),
     "C14": _t("C14", "FlooVerif.C14.lower_bound_of_potValid", "FlooVerif.C14.route_is_shortest",
               "FlooVerif.C14.not_shortest_of_shorter") + [("FlooVerif.potential_lower_bound", "FlooVerif.Lemmas.Paths")] +
